@@ -86,6 +86,7 @@ type vkSrvCfg struct {
 	NoRFC9520 bool
 	Hosts     bool
 	ECS       bool
+	ACL       []string // access list (nil = everyone)
 }
 
 type vkSrvWorld struct {
@@ -160,6 +161,9 @@ func vkNewSrvWorld(spec vkSrvCfg) *vkSrvWorld {
 	}
 	cfg.Timeout.Duration = 2 * time.Second
 	cfg.QueryTimeout.Duration = 5 * time.Second
+	if spec.ACL != nil {
+		cfg.AccessList = spec.ACL
+	}
 	if spec.Cookie {
 		cfg.CookieSecret = "6c6f6f6b61686172646c6f6f6b6168617264"
 	}
